@@ -60,7 +60,11 @@ class Validator:
             stats["generated"] += res.generated
             stats["wall_s"] += round(res.wall, 2)
             for r in res.records:
-                verdicts[r["id"]] = r["fail"]
+                if r.get("ovf"):
+                    unknown.add(r["id"])
+                    verdicts[r["id"]] = []
+                else:
+                    verdicts[r["id"]] = r["fail"]
             if res.ok:
                 break
             # overflow (or other evaluation error) while judging one event: find it, mark unknown, go on
@@ -77,6 +81,8 @@ class Validator:
                 todo = [e for e in todo if e["id"] != bad["id"] and e["id"] not in verdicts]
                 continue
             raise core.MachineryError(f"trace validation failed:\n{text[:4000]}\n{res.raw_tail[-2000:]}")
+        for k in unknown:
+            verdicts.pop(k, None)
         missing = [ev["id"] for ev, _ in self.events if ev["id"] not in verdicts and ev["id"] not in unknown]
         if missing:
             raise core.MachineryError(f"{len(missing)} events were not judged (e.g. id {missing[0]})")
